@@ -632,6 +632,9 @@ def classify_diff(font, path, got, want):
         w, gt = _num(want), _num(got)
         if w is not None and gt == 0.0 and w != 0.0 and abs(w) <= EPS:
             return "flush_to_zero"
+        # an integer-or-float number within 2^-52 of a non-zero integer is written as that integer
+        if w is not None and gt is not None and gt != w and gt == round(w) and gt != 0.0 and abs(w - gt) <= EPS:
+            return "near_integer_rounded"
     return None
 
 
